@@ -11,7 +11,7 @@ import vcommon as vc
 
 RULE = ("sessions = (pre-populated file: ndds in {4,5,16}, 2-12 old objects of kinds H element / linked-block element / "
         "Vdata / Vgroup / SDS / GR image / annotation) x (append-only session of kind H (1..3 new DD blocks forced), "
-        "V, HV, SD, GR, AN, MIX; optional Hsync in the middle); all choices from one PRNG (VERIF_SEED).  For EVERY "
+        "V, HV, SD, GR, AN, MIX, VGADD = new objects inserted into an existing Vgroup; optional Hsync in the middle); all choices from one PRNG (VERIF_SEED).  For EVERY "
         "prefix of the recorded write log the image is materialised, reopened with the library (all old objects read "
         "back by key) and parsed by the extracted Coq reader.  A session is non-trivial when it issues >= 1 write "
         "before and >= 2 writes inside a flush and the old file holds >= 2 objects; distinct by session text")
@@ -66,6 +66,8 @@ def h_op(r, refs, big=False):
     if k < 0.5:
         return "put %d %d %s" % (tag, ref, hexs(rbytes(r, n)))
     if k < 0.75:
+        if r.random() < 0.15:
+            return "sw %d %d 0 -" % (tag, ref)          # zero-length element: a descriptor without any data
         m = r.choice([0, n, n, max(1, n // 2)])
         return "sw %d %d %d %s" % (tag, ref, n, hexs(rbytes(r, m)))
     return "app %d %d %s" % (tag, ref, " ".join(hexs(rbytes(r, r.choice([1, 2, 4, 9]))) for _ in range(r.choice([1, 2, 3]))))
@@ -99,7 +101,7 @@ def an_op(r, refs):
 
 
 def gen_session(r, name, kind=None):
-    kind = kind or r.choice(["H", "H", "H", "V", "HV", "HV", "SD", "GR", "AN", "MIX"])
+    kind = kind or r.choice(["H", "H", "H", "V", "HV", "HV", "SD", "GR", "AN", "MIX", "VGADD"])
     # odd ndds only for H/V sessions: Hnumber (used by ANstart/GRstart/SDstart) over-reads a DD list of odd length
     # (defect of property C12, HTIcount_dd), which is not this property's subject
     ndds = r.choice([4, 4, 5, 16]) if kind in FULL_KINDS else r.choice([4, 4, 16])
@@ -116,6 +118,12 @@ def gen_session(r, name, kind=None):
                                                hexs(rbytes(r, r.choice([5, 9, 17])))))
         else:
             base.append(v_op(r, names))
+    if kind in FULL_KINDS and r.random() < 0.3:
+        # knob: make a DD block the LAST thing in the old file: ndds descriptors without data (invalid offset and
+        # length), one of which needs a new DD block, and nothing is allocated after that block
+        for _ in range(ndds):
+            tag = r.choice(HTAGS)
+            base.append("app %d %d" % (tag, refs.new(r, tag)))
     if kind in ("SD", "MIX"):
         base += [sd_op(r, names) for _ in range(r.randrange(1, 3))]
     if kind in ("GR", "MIX"):
@@ -138,6 +146,12 @@ def gen_session(r, name, kind=None):
         ops = [gr_op(r, names) for _ in range(r.choice([1, 2, 3]))]
     elif kind == "AN":
         ops = [an_op(r, refs) for _ in range(r.choice([1, 2, 4, 6]))]
+    elif kind == "VGADD":
+        # new objects inserted into an EXISTING Vgroup: its record is rewritten (first sentence of the property only)
+        base += ["vg ovg%d oc %d %d" % (i, r.choice([0, 2, 5]), r.randrange(1, 30000)) for i in range(r.choice([1, 2]))]
+        for _ in range(r.choice([1, 2, 4])):
+            ops.append(v_op(r, names) if r.random() < 0.5 else h_op(r, refs))
+            ops.append("vgadd %d %d %d" % (r.randrange(8), r.choice([1, 2, 3]), r.randrange(1, 30000)))
     else:
         pool = [lambda: h_op(r, refs), lambda: v_op(r, names), lambda: sd_op(r, names), lambda: gr_op(r, names),
                 lambda: an_op(r, refs)]
@@ -188,7 +202,7 @@ def parse_replay(lines):
 def classify_ops(ops):
     """kind implied by the operations themselves (used for replays / shrunk sessions)"""
     ks = set(o.split()[0] for o in ops)
-    if ks & {"sds", "gr", "an"}:
+    if ks & {"sds", "gr", "an", "vgadd"}:
         return "META"
     return "HV"
 
@@ -224,7 +238,7 @@ def run_R(ctx, sessions, tag):
         elif t[0] == "R0":
             a = t[1].split()
             cur["R0"] = (int(a[0]), [int(x) for x in a[1:]])
-        elif t[0] == "session":
+        elif t[0] == "session" and re.fullmatch(r"-?\d+", t[1].strip()):
             cur["session_rc"] = int(t[1])
         elif t[0] == "basefail":
             cur["basefail"] = t[1]
@@ -310,7 +324,7 @@ def judge(s, r, sp, defs):
     fails, corr = [], []
     st = {"writes": len(r["W"]), "flush_writes": sum(1 for w in r["W"] if w[1] > 0),
           "pre_writes": sum(1 for w in r["W"] if w[1] == 0), "prefixes": 0, "new_blocks": 0}
-    full = s["kind"] in FULL_KINDS or (s["kind"] not in ("SD", "GR", "AN", "MIX") and classify_ops(s["ops"]) == "HV")
+    full = classify_ops(s["ops"]) == "HV"
     if r.get("basefail") is not None or r["R0"] is None:
         return [(-1, "harness could not build / dump the pre-populated file: %s" % r.get("basefail"))], corr, st
     if r["session_rc"] not in (0, 4, 5):
@@ -442,8 +456,8 @@ def run(ctx):
             s["name"] = "c%s%d" % (re.sub(r"\W", "", fn)[:12], i)
             sessions.append(s)
     ncorpus = len(sessions)
-    n = 46 if ctx.tier == "quick" else 700
-    kinds_cycle = ["H", "H", "H", "V", "HV", "SD", "GR", "AN", "MIX", "H", "HV", "V"]
+    n = 80 if ctx.tier == "quick" else 900
+    kinds_cycle = ["H", "H", "H", "V", "HV", "SD", "GR", "AN", "MIX", "H", "HV", "VGADD"]
     for i in range(n):
         sessions.append(gen_session(r, "g%d" % i, kind=kinds_cycle[i % len(kinds_cycle)] if i < 24 else None))
     rc, R, defs = run_R(ctx, sessions, "main")
